@@ -346,6 +346,21 @@ def check_outputs(body, rep, rule, gk, prog=None):
             kinds.add('public_pem')
         if any('private_der' in f for f in o.fields):
             kinds.add('private_der')
+    # "the same inputs always give the same key files": each output file is created empty, whatever was at that path before
+    from .c16 import created_empty
+    opens = [b for b in body.calls() if cnorm(b.term) in ('std::fs::File::create', 'std::fs::File::create_new', 'std::fs::OpenOptions::open')]
+    stale = []
+    for c in opens:
+        # only the files that receive the key material
+        fl = forward_locals(body, [c.term.dest[0]], through_calls=True) if c.term.dest is not None else set()
+        if not any(w.term.args[0].place is not None and w.term.args[0].place[0] in fl for w in ws):
+            continue
+        fresh, how = created_empty(body, c)
+        if not fresh:
+            stale.append('%s (%s)' % (body.loc(c.idx), how))
+    rep.ob(rule, not stale and bool(opens), '%s|%s|outputs-created-empty' % (rule, body.nkey), 'the key files are created empty (File::create / create_new / create+truncate)' if (not stale and opens) else
+           'a key file is opened without being emptied (%s): what the path held before survives behind the new key, the same inputs no longer give the same files'
+           % (', '.join(stale) or 'no creation call found'), body.loc())
     ok = kinds == {'public_pem', 'private_der'}
     rep.ob(rule, ok, '%s|%s|outputs' % (rule, body.nkey), 'writes public_as_pem() and private_der of the generated pair' if ok else 'output files do not carry the PEM public key and DER private key of the generated pair (%s)' % sorted(kinds), body.loc())
 
